@@ -26,22 +26,22 @@ type Violation struct {
 
 // Result is what one unit run reports.
 type Result struct {
-	Unit           string           `json:"unit"`
-	Property       string           `json:"property"`
-	Evaluations    int64            `json:"evaluations"`
-	States         int64            `json:"states"`
-	Transitions    int64            `json:"transitions"`
-	Traces         int64            `json:"traces"`
-	Outcomes       []uint64         `json:"outcomes"`
-	OutcomesCapped bool             `json:"outcomes_capped,omitempty"`
-	Violations     []Violation      `json:"violations,omitempty"`
-	ViolationCount map[string]int64 `json:"violation_count,omitempty"`
-	Samples        []interface{}    `json:"samples,omitempty"`
-	Exhaustive     bool             `json:"exhaustive"`
-	Notes          []string         `json:"notes,omitempty"`
+	Unit           string                 `json:"unit"`
+	Property       string                 `json:"property"`
+	Evaluations    int64                  `json:"evaluations"`
+	States         int64                  `json:"states"`
+	Transitions    int64                  `json:"transitions"`
+	Traces         int64                  `json:"traces"`
+	Outcomes       []uint64               `json:"outcomes"`
+	OutcomesCapped bool                   `json:"outcomes_capped,omitempty"`
+	Violations     []Violation            `json:"violations,omitempty"`
+	ViolationCount map[string]int64       `json:"violation_count,omitempty"`
+	Samples        []interface{}          `json:"samples,omitempty"`
+	Exhaustive     bool                   `json:"exhaustive"`
+	Notes          []string               `json:"notes,omitempty"`
 	Bounds         map[string]interface{} `json:"bounds,omitempty"`
-	WallS          float64          `json:"wall_s"`
-	EngineError    string           `json:"engine_error,omitempty"`
+	WallS          float64                `json:"wall_s"`
+	EngineError    string                 `json:"engine_error,omitempty"`
 }
 
 // Ctx is handed to a unit's Run function.
@@ -60,11 +60,11 @@ const maxOutcomes = 200000
 const maxViolationsPerClass = 2
 const maxSamples = 3
 
-func (c *Ctx) Eval()               { c.res.Evaluations++ }
-func (c *Ctx) AddEval(n int64)     { c.res.Evaluations += n }
-func (c *Ctx) AddStates(n int64)   { c.res.States += n }
+func (c *Ctx) Eval()                  { c.res.Evaluations++ }
+func (c *Ctx) AddEval(n int64)        { c.res.Evaluations += n }
+func (c *Ctx) AddStates(n int64)      { c.res.States += n }
 func (c *Ctx) AddTransitions(n int64) { c.res.Transitions += n }
-func (c *Ctx) AddTraces(n int64)   { c.res.Traces += n }
+func (c *Ctx) AddTraces(n int64)      { c.res.Traces += n }
 
 // Outcome records one distinct, non-trivial observable outcome (by hash).
 func (c *Ctx) Outcome(h uint64) {
